@@ -93,7 +93,8 @@ Names == E.op = "Tzdb.names" /\ last' = [op |-> "names"] /\ UNCHANGED <<disk, ca
 Check ==
   /\ E.op = "Tzdb.check"
   /\ LET exp == OkV(NameEvents # {} /\ LowerJoin(E.args.chars) \in LowerNames)
-     IN IF exp = E.out \/ (Unasserted(E.args.chars) /\ E.out.kind = "ok") THEN TRUE
+     IN IF exp = E.out \/ (Unasserted(E.args.chars) /\ E.out.kind = "ok")
+        THEN (IF Classes THEN PrintT("CLS " \o CheckCls(E.args.chars)) ELSE TRUE)
         ELSE Report(l, E.op, CheckCls(E.args.chars), exp, E.out)
   /\ last' = [op |-> "check"] /\ UNCHANGED <<disk, cache, hist>>
 
